@@ -120,7 +120,7 @@ def check(spec, ctx):
         for label in dropped:
             if label in bylabel and label not in explabels:
                 raise Violation("FEATURE-NOT-DROPPED", "feature %r overlaps a discarded region but "
-                                "appears in the product at %r" % (label, sorted(bylabel[label][0][2])))
+                                "appears in the product at %r" % (label, sorted(bylabel[label][0][2], key=str)[:12]))
         for label, k in explabels.items():
             if gotlabels.get(label, 0) < k:
                 raise Violation("FEATURE-LOST", "feature %r lies inside the retained fragment of its "
